@@ -105,7 +105,12 @@ impl<T> Entry<T> {
             // that prevent frequent queue create and destroy
             if !next.is_null() {
                 // clear the link bit
-                node.refs &= REF_COUNT_MASK;
+                #[cfg(not(may_verif))]
+                {
+                    node.refs &= REF_COUNT_MASK;
+                }
+                #[cfg(may_verif)]
+                crate::verif::plain_rmw(&mut node.refs, |v| v & REF_COUNT_MASK);
 
                 // this is not the last node, just unlink it
                 (*next).prev = prev;
@@ -114,7 +119,14 @@ impl<T> Entry<T> {
                 let ret = node.value.take();
 
                 // since self is not dropped, below is always false
-                node.refs -= 1;
+                #[cfg(not(may_verif))]
+                {
+                    node.refs -= 1;
+                }
+                #[cfg(may_verif)]
+                crate::verif::plain_rmw(&mut node.refs, |v| v - 1);
+                #[cfg(may_verif)]
+                crate::verif::point(crate::verif::Op::PlainRead, &node.refs as *const usize as usize);
                 if node.refs == 0 {
                     // release the node only when the ref count becomes 0
                     let _: Box<Node<T>> = Box::from_raw(node);
@@ -135,7 +147,16 @@ impl<T> Drop for Entry<T> {
     fn drop(&mut self) {
         let node = unsafe { self.0.as_mut() };
         // dec the ref count of node
-        node.refs -= 1;
+        #[cfg(not(may_verif))]
+        {
+            node.refs -= 1;
+        }
+        #[cfg(may_verif)]
+        unsafe {
+            crate::verif::plain_rmw(&mut node.refs, |v| v - 1)
+        };
+        #[cfg(may_verif)]
+        crate::verif::point(crate::verif::Op::PlainRead, &node.refs as *const usize as usize);
         if node.refs == 0 {
             // release the node
             let _: Box<Node<T>> = unsafe { Box::from_raw(node) };
@@ -266,7 +287,12 @@ impl<T> Queue<T> {
 
             // clear the link bit
             assert!((*tail).refs & REF_COUNT_MASK != 0);
-            (*tail).refs &= REF_COUNT_MASK;
+            #[cfg(not(may_verif))]
+            {
+                (*tail).refs &= REF_COUNT_MASK;
+            }
+            #[cfg(may_verif)]
+            crate::verif::plain_rmw(&mut (*tail).refs, |v| v & REF_COUNT_MASK);
 
             // clear the prev pointer indicate a new end point
             (*next).prev = ptr::null_mut();
@@ -277,7 +303,14 @@ impl<T> Queue<T> {
 
             // we take the next value, this is why use option to host the value
             let ret = (*next).value.take().unwrap();
-            (*tail).refs -= 1;
+            #[cfg(not(may_verif))]
+            {
+                (*tail).refs -= 1;
+            }
+            #[cfg(may_verif)]
+            crate::verif::plain_rmw(&mut (*tail).refs, |v| v - 1);
+            #[cfg(may_verif)]
+            crate::verif::point(crate::verif::Op::PlainRead, &(*tail).refs as *const usize as usize);
             if (*tail).refs == 0 {
                 // release the node only when the ref count becomes 0
                 let _: Box<Node<T>> = Box::from_raw(tail);
@@ -301,7 +334,12 @@ impl<T> Queue<T> {
 
             // clear the link bit
             assert!((*tail).refs & REF_COUNT_MASK != 0);
-            (*tail).refs &= REF_COUNT_MASK;
+            #[cfg(not(may_verif))]
+            {
+                (*tail).refs &= REF_COUNT_MASK;
+            }
+            #[cfg(may_verif)]
+            crate::verif::plain_rmw(&mut (*tail).refs, |v| v & REF_COUNT_MASK);
 
             // spin until tail next become non-null
             let mut next;
@@ -325,7 +363,14 @@ impl<T> Queue<T> {
             assert!((*next).value.is_some());
             // we tack the next value, this is why use option to host the value
             let ret = (*next).value.take().unwrap();
-            (*tail).refs -= 1;
+            #[cfg(not(may_verif))]
+            {
+                (*tail).refs -= 1;
+            }
+            #[cfg(may_verif)]
+            crate::verif::plain_rmw(&mut (*tail).refs, |v| v - 1);
+            #[cfg(may_verif)]
+            crate::verif::point(crate::verif::Op::PlainRead, &(*tail).refs as *const usize as usize);
             if (*tail).refs == 0 {
                 // release the node only when the ref count becomes 0
                 let _: Box<Node<T>> = Box::from_raw(tail);
@@ -349,8 +394,20 @@ impl<T> Drop for Queue<T> {
         // `new`, or the entry popped last, whose handle may still be alive
         unsafe {
             let tail = *self.tail.get();
-            (*tail).refs &= REF_COUNT_MASK;
-            (*tail).refs -= 1;
+            #[cfg(not(may_verif))]
+            {
+                (*tail).refs &= REF_COUNT_MASK;
+            }
+            #[cfg(may_verif)]
+            crate::verif::plain_rmw(&mut (*tail).refs, |v| v & REF_COUNT_MASK);
+            #[cfg(not(may_verif))]
+            {
+                (*tail).refs -= 1;
+            }
+            #[cfg(may_verif)]
+            crate::verif::plain_rmw(&mut (*tail).refs, |v| v - 1);
+            #[cfg(may_verif)]
+            crate::verif::point(crate::verif::Op::PlainRead, &(*tail).refs as *const usize as usize);
             if (*tail).refs == 0 {
                 let _: Box<Node<T>> = Box::from_raw(tail);
             }
